@@ -33,11 +33,11 @@ func init() {
 	fw.Register(&fw.Prop{
 		ID: "C18",
 		Meta: func(tier string) fw.Meta {
-			n := 18
+			n, caseTimeout := 18, 600
 			if tier == "thorough" {
-				n = 360
+				n, caseTimeout = 360, 1200
 			}
-			return fw.Meta{N: n, Level: "exploration", Chunk: 1, CaseTimeoutS: 600, MinNT: 9, Workers: 6,
+			return fw.Meta{N: n, Level: "exploration", Chunk: 1, CaseTimeoutS: caseTimeout, MinNT: 9, Workers: 6,
 				Rule:        "one case = one run of a workload in the race-detector build (case index mod 3: 0 = one SimpleDB handle, 8 goroutines of Get/Put/Delete on own and shared keys while size-triggered rotations, the background compactor (50us..1ms ticker) and forced rotations run; 1 = one SSTableReader with the default index loader (one table in three without a bloom filter file), 8..16 goroutines of Get/Contains/ScanRange/ScanStartingAt with every result compared with the precomputed sequential answer; 2 = one memory-mapped RecordIO reader, 8..16 goroutines of ReadNextAt/SeekNext at random offsets compared with the sequential answers), GOMAXPROCS from {2,4,16} by case. Oracles: zero race-detector reports touching go-sstables or the harness, no panic / abnormal exit, zero result mismatches. Every goroutine performs a fixed number of calls (no time boxing). Non-trivial: the run completed >= 1000 concurrent calls; distinct by (workload, seed, GOMAXPROCS) Database workload additions: in every other run callbacks at the named points flush.beforeAddReader and compaction.reflect.dbLocked make flusher and compactor wait a bounded number of spins for each other and leave together with 0..80 increments of skew; every run is closed while the goroutines are still calling - after a third of the calls, or during a tail of Puts that goes on until Close turns them away (only ErrAlreadyClosed is acceptable from then on, Close must return nil); two of the six shared keys hold 40..70 KiB values.",
 				MinObs:      map[string]int64{"race_builds_run": 9, "concurrent_calls": 100000, "db_flushes_during_calls": 200, "db_compactions_during_calls": 20},
 				Assumptions: []string{"the Go race detector only reports races that happened in the observed execution", "SSTableReader.Scan is not part of the documented concurrent surface (the statement lists Get/Contains/range scans)"},
@@ -72,11 +72,12 @@ func runC18(c *fw.Case) {
 	work := filepath.Join(c.Dir, "w")
 	_ = os.MkdirAll(work, 0755)
 	env := []string{"GORACE=halt_on_error=0 log_path=" + logBase + " history_size=2", fmt.Sprintf("GOMAXPROCS=%d", procs)}
-	dur := "1200"
+	dur, watchdog := "1200", 200
 	if c.Thorough() {
-		dur = "6000"
+		// (five times the calls; with the steered schedules some GOMAXPROCS=2 runs take minutes in the race build)
+		dur, watchdog = "6000", 900
 	}
-	res := fw.RunSub(race, 200, env, c.Dir, "c18work", "-kind", kind, "-dir", work, "-seed", fmt.Sprint(seed), "-calls", dur)
+	res := fw.RunSub(race, watchdog, env, c.Dir, "c18work", "-kind", kind, "-dir", work, "-seed", fmt.Sprint(seed), "-calls", dur)
 	c.Obs("race_builds_run", 1)
 	if res.TimedOut {
 		if site, dl := fw.ClassifyHang(res.Stderr); dl {
